@@ -281,7 +281,7 @@ def gen_sequence(rng, n_ops):
 
 def correspondence(res):
     rng = random.Random(res.seed * 23 + 1)
-    n = 500 if res.tier == "quick" else 20000
+    n = 500 if res.tier == "quick" else 4000
     terms, infos = [], []
     for i in range(n):
         import sys
